@@ -548,7 +548,8 @@ class PortNamespace(collections.abc.MutableMapping, Port):
         # Overload mutable attributes of PortNamespace unless overridden by value in namespace_options
         for attr in dir(port_namespace):
             if is_mutable_property(PortNamespace, attr):
-                setattr(self, attr, namespace_options.pop(attr, getattr(port_namespace, attr)))
+                # the absorbed properties must not alias those of the source (a mutable default, say)
+                setattr(self, attr, namespace_options.pop(attr, copy.deepcopy(getattr(port_namespace, attr))))
 
         if namespace_options:
             raise ValueError(
